@@ -55,6 +55,8 @@ def extra(ver):
             canary_tool(ver, v)
             res = run_shards(v, prop, wt, ver.seed, NCPU, timeout=7200)
             ver.add_run({"asan": "AddressSanitizer (exact-size heap buffers)", "memcheck": "valgrind memcheck (exact-size heap buffers, undefined-value tracking)"}[v], v, wt, res)
+    if tier == "thorough" and prop in FUZZ_PROPS:
+        fuzz_engine(ver, int(os.environ.get("VERIF_FUZZ_SECONDS", "90")))
     if prop == "C04":
         lifetimes_corpus(ver)
     if prop == "C19":
@@ -62,6 +64,60 @@ def extra(ver):
         c19_coldstart(ver)
     if prop == "C13" and tier == "thorough":
         c13_race_detectors(ver)
+
+
+FUZZ_PROPS = ["C01", "C02", "C03", "C04", "C05", "C06", "C07", "C08", "C09", "C10", "C11", "C14", "C15", "C16", "C17", "C19"]
+
+
+def fuzz_engine(ver, seconds):
+    """E12: libFuzzer (+ASan) as a coverage-guided workload generator for this property's per-call oracle."""
+    import re
+    if vd.REPO != "/repo":
+        ver.extra["libfuzzer"] = "skipped: the fuzz crate is tied to /repo"
+        return
+    fdir = os.path.join(vd.VERIF, "fuzz")
+    td = os.path.join(vd.TARGET_ROOT, "fuzz")
+    env = dict(os.environ, CARGO_NET_OFFLINE="true", RUSTFLAGS=vd.BASE_FLAGS, VERIF_FUZZ_PROP=ver.prop)
+    b = subprocess.run(["cargo", "+nightly", "fuzz", "build", "--fuzz-dir", fdir, "--target-dir", td, "oracles"], env=env, cwd=fdir,
+                       stdout=subprocess.PIPE, stderr=subprocess.STDOUT, text=True)
+    if b.returncode != 0:
+        ver.inconclusive.append("libFuzzer target build failed: " + b.stdout[-1200:])
+        return
+    work = os.path.join(vd.TARGET_ROOT, "fuzz-work", ver.prop)
+    shutil.rmtree(work, ignore_errors=True)
+    corpus, arts = os.path.join(work, "corpus"), os.path.join(work, "artifacts")
+    os.makedirs(arts, exist_ok=True)
+    subprocess.run([os.path.join(build("rel"), "worker"), "dump-corpus", corpus], stdout=subprocess.PIPE)
+    cmd = ["cargo", "+nightly", "fuzz", "run", "--fuzz-dir", fdir, "--target-dir", td, "oracles", corpus, "--",
+           "-max_total_time=%d" % seconds, "-fork=%d" % NCPU, "-ignore_crashes=1", "-timeout=10", "-seed=%d" % (ver.seed % (1 << 31) or 1),
+           "-max_len=600", "-artifact_prefix=" + arts + "/"]
+    r = subprocess.run(cmd, env=env, cwd=fdir, stdout=subprocess.PIPE, stderr=subprocess.STDOUT, text=True, errors="replace",
+                       timeout=seconds * 3 + 600)
+    execs = cov = ft = 0
+    for m in re.finditer(r"#(\d+): cov: (\d+) ft: (\d+)", r.stdout):
+        execs, cov, ft = max(execs, int(m.group(1))), max(cov, int(m.group(2))), max(ft, int(m.group(3)))
+    crashes = sorted(f for f in os.listdir(arts) if f.startswith(("crash-", "timeout-", "oom-", "leak-")))
+    ver.extra["libfuzzer"] = dict(seconds=seconds, forks=NCPU, executions=execs, coverage_edges=cov, features=ft, artifacts=len(crashes),
+                                  sanitizer="address", corpus_files=len(os.listdir(corpus)))
+    ver.evaluations += execs
+    if execs == 0:
+        ver.inconclusive.append("libFuzzer ran no inputs: " + r.stdout[-800:])
+    os.makedirs(os.path.join(vd.OUT_ROOT, "replay"), exist_ok=True)
+    w = os.path.join(build("rel"), "worker")
+    for i, c in enumerate(crashes[:6]):
+        keep = os.path.join(vd.OUT_ROOT, "replay", "fuzz-%s-%d.bin" % (ver.prop, i))
+        shutil.copy(os.path.join(arts, c), keep)
+        rr = subprocess.run([w, "replay", "fuzz", ver.prop, keep], stdout=subprocess.PIPE, stderr=subprocess.STDOUT, text=True, errors="replace")
+        if rr.returncode == 1:
+            line = next((l for l in rr.stdout.splitlines() if l.startswith("property=")), rr.stdout[-400:])
+            ver.add_violation(dict(property=ver.prop, rule="found_by_libfuzzer", detail=line[:900], replay=["fuzz", ver.prop, keep], signature=None), "rel")
+        elif rr.returncode < 0 or rr.returncode in (134, 139):
+            ver.add_violation(dict(property=ver.prop, rule="memory_safety_or_abort", detail="libFuzzer artifact %s kills the native worker (rc %d)" % (c, rr.returncode),
+                                   replay=["fuzz", ver.prop, keep], signature=None), "rel")
+        elif c.startswith("crash-"):
+            # reproduces only under ASan / in the fuzz binary: still a report from the sanitizer
+            ver.inconclusive.append("libFuzzer crash artifact %s does not reproduce natively (kept at %s); fuzzer output tail: %s" % (c, keep, r.stdout[-600:]))
+    shutil.rmtree(work, ignore_errors=True)
 
 
 def canary_tool(ver, vname):
